@@ -59,11 +59,17 @@ func firstViolation(r *RunResult) *Violation {
 func Minimise(t *testing.T, prof *Profile, orig *RunResult, target Violation, maxTrials int, deadline time.Time) (*RunResult, int) {
 	best := orig
 	trials := 0
+	trialFile := os.Getenv("LSSIM_TRIAL_FILE")
 	try := func(cand []Draw) bool {
 		if trials >= maxTrials || time.Now().After(deadline) {
 			return false
 		}
 		trials++
+		if trialFile != "" {
+			// should this trial kill the process, the parent can replay it
+			_ = WriteReplay(trialFile, &ReplayFile{Property: target.Property, Profile: prof.Name, RunSeed: orig.RunSeed, Index: orig.Index,
+				Oracle: "process-crash", Tape: cand})
+		}
 		r := RunOne(t, prof, NewReplayTape(cand, false), orig.RunSeed, orig.Index)
 		if r.HarnessErr != "" {
 			return false
@@ -231,12 +237,17 @@ func WorkerBatch(t *testing.T) {
 			if knownClasses[class] || knownClasses["*"] {
 				maxTrials = 0 // known finding: no need to minimise again
 			}
+			emit(outLine{Type: "minimising", Info: map[string]any{"index": index, "run_seed": runSeed}})
 			min, trials := Minimise(t, prof, r, *v, maxTrials, time.Now().Add(time.Duration(envInt("LSSIM_MIN_S", 90))*time.Second))
 			mv := firstViolation(min)
 			if replayDir != "" {
 				_ = WriteReplay(path, replayFileFor(min, *mv, seed, true, len(r.tape)))
 				_ = os.Remove(path + ".orig")
 			}
+			if tf := os.Getenv("LSSIM_TRIAL_FILE"); tf != "" {
+				_ = os.Remove(tf)
+			}
+			emit(outLine{Type: "minimised", Info: map[string]any{"index": index}})
 			emit(outLine{Type: "violation", Viol: mv, Replay: path, Info: map[string]any{
 				"index": index, "orig_draws": len(r.tape), "min_draws": len(min.tape), "min_nonzero": nonZero(min.tape), "trials": trials}})
 			if stopOnViol {
